@@ -26,6 +26,28 @@ type Expr struct {
 	Tupleset string `json:"tupleset,omitempty"` // ttu
 	A        *Expr  `json:"a,omitempty"`
 	B        *Expr  `json:"b,omitempty"`
+	// Nary (union / intersection): this node and its same-kind left spine are ONE n-ary operator node in the
+	// model handed to the server (what the DSL produces for `a and b and c`); the semantics are those of
+	// the nested binary form
+	Nary bool `json:"nary,omitempty"`
+}
+
+// NaryOf builds the n-ary union / intersection of the operands (three or more), in the given order.
+func NaryOf(k Kind, ops ...*Expr) *Expr {
+	e := ops[0]
+	for _, o := range ops[1:] {
+		e = &Expr{K: k, A: e, B: o}
+	}
+	e.Nary = true
+	return e
+}
+
+// spine lists the operands of an n-ary node.
+func (e *Expr) spine() []*Expr {
+	if e.A.K == e.K && !e.A.Nary {
+		return append(e.A.spine(), e.B)
+	}
+	return []*Expr{e.A, e.B}
 }
 
 type Restr struct {
@@ -68,10 +90,19 @@ func (e *Expr) String() string {
 		return e.Rel
 	case KTTU:
 		return e.Rel + " from " + e.Tupleset
-	case KUnion:
-		return "(" + e.A.String() + " or " + e.B.String() + ")"
-	case KInter:
-		return "(" + e.A.String() + " and " + e.B.String() + ")"
+	case KUnion, KInter:
+		op := " or "
+		if e.K == KInter {
+			op = " and "
+		}
+		if e.Nary {
+			var ps []string
+			for _, x := range e.spine() {
+				ps = append(ps, x.String())
+			}
+			return "(" + strings.Join(ps, op) + ")"
+		}
+		return "(" + e.A.String() + op + e.B.String() + ")"
 	case KDiff:
 		return "(" + e.A.String() + " but not " + e.B.String() + ")"
 	}
@@ -123,10 +154,19 @@ func toUserset(e *Expr) *openfgav1.Userset {
 		return &openfgav1.Userset{Userset: &openfgav1.Userset_TupleToUserset{TupleToUserset: &openfgav1.TupleToUserset{
 			Tupleset:        &openfgav1.ObjectRelation{Relation: e.Tupleset},
 			ComputedUserset: &openfgav1.ObjectRelation{Relation: e.Rel}}}}
-	case KUnion:
-		return &openfgav1.Userset{Userset: &openfgav1.Userset_Union{Union: &openfgav1.Usersets{Child: []*openfgav1.Userset{toUserset(e.A), toUserset(e.B)}}}}
-	case KInter:
-		return &openfgav1.Userset{Userset: &openfgav1.Userset_Intersection{Intersection: &openfgav1.Usersets{Child: []*openfgav1.Userset{toUserset(e.A), toUserset(e.B)}}}}
+	case KUnion, KInter:
+		ops := []*Expr{e.A, e.B}
+		if e.Nary {
+			ops = e.spine()
+		}
+		var ch []*openfgav1.Userset
+		for _, x := range ops {
+			ch = append(ch, toUserset(x))
+		}
+		if e.K == KUnion {
+			return &openfgav1.Userset{Userset: &openfgav1.Userset_Union{Union: &openfgav1.Usersets{Child: ch}}}
+		}
+		return &openfgav1.Userset{Userset: &openfgav1.Userset_Intersection{Intersection: &openfgav1.Usersets{Child: ch}}}
 	case KDiff:
 		return &openfgav1.Userset{Userset: &openfgav1.Userset_Difference{Difference: &openfgav1.Difference{Base: toUserset(e.A), Subtract: toUserset(e.B)}}}
 	}
